@@ -61,11 +61,14 @@ pub struct DlCfg {
     pub upload: Option<(Vec<u8>, u8)>,
     /// payload of the first request when there is no upload phase
     pub req_payload: Vec<u8>,
+    /// do not send the two probing requests after the transfer (sessions: the next transfer is
+    /// the probe, and extra requests would overwrite what the finished transfer left behind)
+    pub skip_release_probes: bool,
 }
 
 impl DlCfg {
     pub fn base() -> DlCfg {
-        DlCfg { ep: 0, path: vec![], body: vec![], reply_opts: vec![], tkl: 0, strategy: Strategy::Follow, typ: 0, abandon_after: None, vary_tkl: false, code: 1, upload: None, req_payload: vec![] }
+        DlCfg { ep: 0, path: vec![], body: vec![], reply_opts: vec![], tkl: 0, strategy: Strategy::Follow, typ: 0, abandon_after: None, vary_tkl: false, code: 1, upload: None, req_payload: vec![], skip_release_probes: false }
     }
 }
 
@@ -349,6 +352,9 @@ pub fn download(server: &mut Server, cfg: &DlCfg, ids: &mut Ids) -> (Vec<Finding
     }
     if server.app_calls - calls_before != 1 {
         bail!(Scope::Transfer, "application-consulted-more-than-once", "{} application calls for one transfer", server.app_calls - calls_before);
+    }
+    if cfg.skip_release_probes {
+        return (out, st);
     }
     // cache released: the next request reaches the application again (with and without Block2)
     for probe_b2 in [None, Some((0u32, false, st.chosen_szx.unwrap_or(2)))] {
@@ -694,7 +700,7 @@ pub fn run_sessions(rep: &mut Report, r: &mut Rng, n: u64, level: u32, scope: Sc
                 2 => Strategy::Early(r.below(7) as u8),
                 _ => Strategy::Reduce { early: None, after: r.urange(1, 2), new_szx: r.below(2) as u8 },
             };
-            let cfg = DlCfg { ep: 7, path: vec!["sess".into()], body: body_bytes(r.next_u64(), blen), reply_opts: opts.clone(), tkl, strategy, typ: 0, abandon_after: None, vary_tkl: r.chance(1, 3), code, upload, req_payload: if code != 1 && r.bool() { b"q".to_vec() } else { vec![] } };
+            let cfg = DlCfg { ep: 7, path: vec!["sess".into()], body: body_bytes(r.next_u64(), blen), reply_opts: opts.clone(), tkl, strategy, typ: 0, abandon_after: None, vary_tkl: r.chance(1, 3), code, upload, req_payload: if code != 1 && r.bool() { b"q".to_vec() } else { vec![] }, skip_release_probes: t + 1 < ntx && r.chance(2, 3) };
             story.push(format!("#{} {} upload {:?} reply {}B strategy {:?} vary_tkl {}", t, coap_lite::MessageClass::from(code), cfg.upload.as_ref().map(|u| (u.0.len(), szx_size(u.1))), blen, cfg.strategy, cfg.vary_tkl));
             let witness = format!("session on one handler and key, budget {} reply options {:?}: {}", m, opts.iter().map(|o| o.0).collect::<Vec<_>>(), story.join(" ; "));
             set_case_str(&witness);
